@@ -1,6 +1,6 @@
 /-
-  C02 — acknowledged writes survive a process crash, in commit order (stage 1: log-level model,
-  no sealed journals; the torn tail of an in-flight append is C03's theorem).
+  C02 — acknowledged writes survive a process crash, in commit order (log-level model incl. journal
+  rotation and eviction; the torn tail of an in-flight append is C03's theorem).
 -/
 import FjallModel.Lemmas.DbReach
 import FjallModel.Props.C03
@@ -10,8 +10,9 @@ open Fjall Fjall.Spec
 /-- **Crash at an operation boundary.** With the default journal persist mode every acknowledged
     operation has reached the journal file before its call returned, so the files after a process
     crash are those of a clean close: recovery yields exactly the state of all acknowledged
-    operations, for all keyspaces together. -/
-theorem c02_crash_prefix_partial (ops : List DOp) (hwf : ProgWF {} ops) (id : KsId) :
+    operations, for all keyspaces together — with any number of sealed journals, some already
+    reclaimed, and flushes of the keyspaces at different points. -/
+theorem c02_crash_prefix (ops : List DOp) (hwf : ProgWF {} ops) (id : KsId) :
     ((drun {} ops).recover.absOf id).Equiv ((drun {} ops).absOf id) :=
   recover_abs _ (drun_inv {} ops dinv_init hwf) id
 
